@@ -772,6 +772,16 @@ class AbstractExcelInPython(ABC):
             base_date = datetime.datetime(1899, 12, 30)
             return str((value - base_date).days)
 
+        if isinstance(value, self.EmptyCell):
+            return ''
+
+        if isinstance(value, bool):
+            return str(value).upper()
+
+        if isinstance(value, float):
+            # Excel shows at most 15 significant digits, no trailing '.0' and no negative zero
+            return f'{value:.15g}' if value else '0'
+
         return str(value)
 
     def _parse_date_formats(self, date: str, format: str):
